@@ -18,7 +18,7 @@ func init() {
 		NotDecided: []string{"the relative order in which the promotion goroutine and a later demotion callback actually run (scheduling)", "strict alternation at run time when the OnPromote callback itself is slow"},
 		Assumptions: []string{"the election mutex serialises claim transitions (C18-R1, C20)", "callbacks registered after Start are picked up at the next transition"},
 		Rules: map[string]string{
-			"R1": "exactly one invocation site of the onPromote value; it is in a `go` closure of the claim-set unit, the claim Store(true) dominates the go statement, and its token argument is the value stored to the token field in that activation",
+			"R1": "the claim Store(true) is guarded by claim==false read under the same write-lock hold (no second promotion within a term); exactly one invocation site of the onPromote value; it is in a `go` closure of the claim-set unit, the claim Store(true) dominates the go statement, and its token argument is the value stored to the token field in that activation",
 			"R2": "for every claim-clearing site (Store(false) or call of a function that may demote): must-follow of an onDemote invocation on every path to the function exit, permitted skips: onDemote == nil, claim-seen-by-the-clearing-section == false, non-nil error return of a stop unit; otherwise the obligation moves to every caller; a root without notification is a violation",
 			"R3": "every onDemote invocation is guarded by a literal 'result of a returns-previous-claim function is true' or, in a unit that clears the claim itself, 'claim loaded under the write-lock hold that clears it is true'",
 		},
@@ -161,6 +161,28 @@ func checkC08(c *Ctx) {
 			got := m.Sym.Of(args[1])
 			c.check(got.String() == tokenStored.String(), "R1", "promotion token in "+shortFn(top), s.in, "OnPromote receives %s; the token field receives %s", got, tokenStored)
 		}
+	}
+
+	// no promotion while a term is already running: the claim store is guarded by the claim
+	// having been read false under the same write-lock hold
+	la0 := m.Locks()
+	for _, unit := range m.ClaimSet {
+		eachInstr(unit, func(in ssa.Instruction) {
+			val, isConst, ok := m.claimStore(in)
+			if !ok || !isConst || !val {
+				return
+			}
+			guarded := false
+			for _, l := range m.GuardsAt(in) {
+				if !l.Truth && m.isClaimLoadSym(l.S) {
+					if ld, ok := l.S.V.(*ssa.Call); ok && ld.Parent() == unit && la0.MustBefore(ld)[m.implMuW()] && la0.MustBefore(in)[m.implMuW()] {
+						guarded = true
+					}
+				}
+			}
+			c.check(guarded, "R1", "no promotion while a term is running in "+shortFn(unit), in,
+				"claim Store(true) is guarded by claim == false read under the same write-lock hold: %v (otherwise an acquisition that succeeds while the instance leads - e.g. after an outside party deleted its key - runs OnPromote twice in a row and starts a second set of loops)", guarded)
+		})
 	}
 
 	// ---- R2 no silent demotion -----------------------------------------------------
